@@ -14,7 +14,7 @@ import ast
 from typing import Any, Iterable
 
 from ..db import ClassInfo, FunctionInfo, dotted, mangle, own_nodes
-from ..exc import CANCELLED
+from ..exc import CANCELLED, INT_DIGITS
 from ..flow import Interp, call_of
 from .base import RuleAnalysis
 
@@ -35,9 +35,11 @@ RAISE_TABLE: dict[str, list[str]] = {
     "builtins.bytes.decode": ["UnicodeDecodeError"],
     "memoryview.tobytes": [],
     "codecs.decode": ["UnicodeDecodeError"],
-    "json.JSONDecoder.decode": ["json.decoder.JSONDecodeError", "RecursionError"],
-    "json.JSONDecoder.raw_decode": ["json.decoder.JSONDecodeError", "RecursionError"],
-    "json.loads": ["json.decoder.JSONDecodeError", "RecursionError", "UnicodeDecodeError"],
+    # ValueError: CPython >= 3.11 refuses to convert an integer literal of more than sys.get_int_max_str_digits() (4300) digits
+    # ("Exceeds the limit ... for integer string conversion") - a plain ValueError, not a JSONDecodeError
+    "json.JSONDecoder.decode": ["json.decoder.JSONDecodeError", "RecursionError", INT_DIGITS],
+    "json.JSONDecoder.raw_decode": ["json.decoder.JSONDecodeError", "RecursionError", INT_DIGITS],
+    "json.loads": ["json.decoder.JSONDecodeError", "RecursionError", "UnicodeDecodeError", INT_DIGITS],
     "struct.Struct.unpack": ["struct.error"],
     "struct.Struct.unpack_from": ["struct.error"],
     "struct.unpack": ["struct.error"],
@@ -58,7 +60,7 @@ RAISE_TABLE: dict[str, list[str]] = {
 DECOMPRESS_PROTOCOL = "easynetwork.serializers.wrapper.compressor:DecompressorInterface.decompress"
 
 UNIVERSE = (
-    "UnicodeDecodeError", "json.decoder.JSONDecodeError", "RecursionError", "struct.error", "binascii.Error", "zlib.error",
+    INT_DIGITS, "UnicodeDecodeError", "json.decoder.JSONDecodeError", "RecursionError", "struct.error", "binascii.Error", "zlib.error",
     "EOFError", "BufferError", LIMIT, INCR, DESER, STREAMPARSE, DGRAMPARSE, CONVERT, "StopIteration", "StopAsyncIteration",
     "NotImplementedError", "RuntimeError", "TypeError", "ValueError", "AssertionError", "OSError", "Exception",
 )
